@@ -49,14 +49,18 @@ func init() {
 func runC32(c *Ctx) {
 	scope := c.P.Funcs(Mod + "/" + pkgLite)
 	lc := NewLockCtx(c.P, scope)
-	checkGuarded(c, lc, scope, GuardSpec{Type: pkgLite + ":pingStatusCache", Mutex: "mu", Fields: []string{"generation"}})
+	genName := "generation"
+	if gf := c.P.FieldVarLike(pkgLite+":pingStatusCache", "generation", "uint64"); gf != nil {
+		genName = gf.Name() // the reset counter, whatever it is called now
+	}
+	checkGuarded(c, lc, scope, GuardSpec{Type: pkgLite + ":pingStatusCache", Mutex: "mu", Fields: []string{genName}})
 	c.Floor("guarded", 4)
 
 	isCache := func(cc *ssa.CallCommon) bool {
 		return !cc.IsInvoke() && len(cc.Args) > 0 && strings.HasSuffix(PathOf(cc.Args[0]), ".cache") &&
 			typeIs(cc.Args[0].Type(), "ttlcache/v3", "Cache")
 	}
-	genField := c.P.FieldVar(pkgLite+":pingStatusCache", "generation")
+	genField := c.P.FieldVarLike(pkgLite+":pingStatusCache", "generation", "uint64")
 	isGenLoad := func(v ssa.Value) bool {
 		ld, ok := v.(*ssa.UnOp)
 		if !ok || ld.Op != token.MUL {
@@ -188,17 +192,41 @@ func runC32(c *Ctx) {
 			if !ci.Common().IsInvoke() {
 				keyArg = args[1]
 			}
-			hasGen := derivesFrom(keyArg, 12, func(v ssa.Value) bool { return isGenLoad(v) })
+			hasGen := false
 			need := map[string]bool{"routeGeneration": false, "backendAddr": false, "protocol": false}
-			derivesFrom(keyArg, 12, func(v ssa.Value) bool {
-				p := PathOf(v)
-				for k := range need {
-					if strings.HasSuffix(p, "."+k) {
-						need[k] = true
+			var scan func(v ssa.Value, depth int)
+			scan = func(v ssa.Value, depth int) {
+				derivesFrom(v, 12, func(x ssa.Value) bool {
+					if isGenLoad(x) || isSnapshotOfGeneration(x, isGenLoad) {
+						hasGen = true
+					}
+					p := PathOf(x)
+					for k := range need {
+						if strings.HasSuffix(p, "."+k) {
+							need[k] = true
+						}
+					}
+					return false
+				})
+				// the key built by a helper of the module (flightKey(epoch, key)): what its result is made of,
+				// its parameters read as this call's arguments
+				if cl, isC := strip(v).(*ssa.Call); isC && depth > 0 {
+					if g := moduleHelperWithBody(&cl.Call); g != nil {
+						res := make([]ssa.Value, len(cl.Call.Args))
+						for i, a := range cl.Call.Args {
+							res[i] = strip(a)
+						}
+						withBinding(g, res, func() {
+							for _, r := range successReturns(g) {
+								if len(r.Results) > 0 {
+									scan(retVal(r, 0), depth-1)
+								}
+							}
+						})
 					}
 				}
-				return false
-			})
+			}
+			scan(keyArg, 2)
 			missing := []string{}
 			for k, ok := range need {
 				if !ok {
@@ -285,6 +313,58 @@ func runC32(c *Ctx) {
 // isSnapshotOfGeneration: v is a value captured from a load of the generation field (free variable
 // bound to such a load in the enclosing function, or a load in a dominating block).
 func isSnapshotOfGeneration(v ssa.Value, isGenLoad func(ssa.Value) bool) bool {
+	return isSnapshotOfGenerationD(v, isGenLoad, 5)
+}
+
+func isSnapshotOfGenerationD(v ssa.Value, isGenLoad func(ssa.Value) bool, depth int) bool {
+	if depth <= 0 || v == nil {
+		return false
+	}
+	switch x := v.(type) {
+	case *ssa.Parameter:
+		// handed down by the callers: every call site passes a snapshot
+		fn := x.Parent()
+		if !isUnexportedHelper(fn) {
+			return false
+		}
+		idx := -1
+		for i, q := range fn.Params {
+			if q == x {
+				idx = i
+			}
+		}
+		sites := staticCallersOf(fn)
+		if idx < 0 || len(sites) == 0 {
+			return false
+		}
+		for _, cs := range sites {
+			if idx >= len(cs.Common().Args) || !isSnapshotOfGenerationD(stripNoSubst(cs.Common().Args[idx]), isGenLoad, depth-1) {
+				return false
+			}
+		}
+		return true
+	case *ssa.Extract:
+		// handed back by a helper (epoch, cached := c.snapshot(key)): every return yields a generation load
+		cl, ok := x.Tuple.(*ssa.Call)
+		if !ok {
+			return false
+		}
+		g := moduleHelperWithBody(&cl.Call)
+		if g == nil {
+			return false
+		}
+		n := 0
+		for _, r := range successReturns(g) {
+			if x.Index >= len(r.Results) {
+				return false
+			}
+			n++
+			if !isSnapshotOfGenerationD(stripNoSubst(r.Results[x.Index]), isGenLoad, depth-1) {
+				return false
+			}
+		}
+		return n > 0
+	}
 	switch x := v.(type) {
 	case *ssa.FreeVar:
 		fn := x.Parent()
@@ -302,13 +382,13 @@ func isSnapshotOfGeneration(v ssa.Value, isGenLoad func(ssa.Value) bool) bool {
 		eachInstr(par, func(in ssa.Instruction) {
 			if mc, ok := in.(*ssa.MakeClosure); ok && mc.Fn == fn && idx < len(mc.Bindings) {
 				b := mc.Bindings[idx]
-				if isGenLoad(b) {
+				if isGenLoad(b) || isSnapshotOfGenerationD(b, isGenLoad, 3) {
 					found = true
 				}
 				// captured by reference: an alloc that stores a generation load
 				if a, ok := b.(*ssa.Alloc); ok {
 					for _, s := range storesTo(a) {
-						if isGenLoad(s) {
+						if isGenLoad(s) || isSnapshotOfGenerationD(stripNoSubst(s), isGenLoad, 3) {
 							found = true
 						}
 					}
